@@ -44,6 +44,8 @@ UNIVERSE = {
         {'name': 'e', 'schema': 'public', 'content': 1},   # same name, other items
         {'name': 'f', 'schema': 's', 'content': 0},
         {'name': 'z', 'schema': 's', 'content': 9},        # an enum without items (content 9 = no items)
+        {'name': 'e', 'schema': 's', 'content': 0},        # the namesake of E[0] in another schema: no clash
+        {'name': 'f', 'schema': 's', 'content': 1},        # clashes with E[3] OUTSIDE the default schema (same schema.name, other items)
     ],
     'G': [{'name': 'g'}, {'name': 'g'}, {'name': 'h'}],
     # sticky notes: N[1] is a look-alike of N[0] (same name, same text): containment goes by the object, not by its looks
@@ -212,6 +214,15 @@ def oracle_step(w, op, outcome, ret, before):
                               'schema-qualified names, kind, name, actions)', None))
         except Exception:  # noqa: BLE001
             pass
+    if kind == 'enum' and op[0] == 'add' and not outcome.startswith('raised'):
+        # the rule for enums: one per (schema, name) - in EVERY schema -, decided from the universe's own description
+        obj = UNIVERSE['E'][op[2]]
+        held = [UNIVERSE['E'][i] for i in before['enums'] if i is not None]
+        clash = any((x['schema'], x['name']) == (obj['schema'], obj['name']) for x in held)
+        if outcome == 'ok' and clash:
+            fails.append(('an enum was accepted although an enum with the same schema and name is contained', None))
+        if outcome == 'rejected' and not clash:
+            fails.append(('an enum is refused although no contained enum has its schema and name', None))
     if kind == 'sticky' and op[0] in ('add', 'delete') and not outcome.startswith('raised'):
         # sticky notes have no rule of their own: one is refused only when that very object is already contained, and only a
         # contained one can be deleted (a look-alike with the same name and text is another note)
@@ -311,7 +322,7 @@ CORE_OPS = [['add', 'table', 0], ['add', 'table', 1], ['add', 'table', 2], ['add
             ['add', 'ref', 0], ['add', 'ref', 1], ['add', 'ref', 3], ['add', 'ref', 4], ['add', 'ref', 5], ['delete', 'ref', 1],
             ['add', 'enum', 0], ['add', 'enum', 1], ['add', 'enum', 2], ['delete', 'enum', 1],
             ['add', 'group', 0], ['add', 'group', 1], ['delete', 'group', 0],
-            ['add', 'sticky', 0], ['delete', 'sticky', 0], ['add', 'sticky', 1], ['delete', 'sticky', 1], ['add', 'sticky', 3], ['delete', 'sticky', 3], ['add', 'enum', 4], ['delete', 'enum', 4], ['add', 'project', 0], ['add', 'project', 1], ['deleteProject'],
+            ['add', 'sticky', 0], ['delete', 'sticky', 0], ['add', 'sticky', 1], ['delete', 'sticky', 1], ['add', 'sticky', 3], ['delete', 'sticky', 3], ['add', 'enum', 3], ['add', 'enum', 4], ['delete', 'enum', 4], ['add', 'enum', 5], ['add', 'enum', 6], ['add', 'project', 0], ['add', 'project', 1], ['deleteProject'],
             ['add', 'other', 0], ['delete', 'other', 0],
             ['setName', 0, 'b'], ['setName', 2, 'zz'], ['setAlias', 2, 'y'], ['setSchema', 0, 's'], ['setAlias', 4, None]]
 
@@ -338,7 +349,7 @@ def gen_histories(ctx):
             op = ops[rng.randrange(len(ops))]
             if j < 6 and rng.random() < 0.7:
                 op = ['add', rng.choice(['table', 'table', 'ref', 'enum', 'group', 'sticky', 'project']), 0]
-                op[2] = rng.randrange({'table': 6, 'ref': 6, 'enum': 5, 'group': 3, 'sticky': 4, 'project': 2}[op[1]])
+                op[2] = rng.randrange({'table': 6, 'ref': 6, 'enum': 7, 'group': 3, 'sticky': 4, 'project': 2}[op[1]])
             h.append(op)
         hs.append(h)
     return hs
@@ -645,7 +656,7 @@ def main(tier, seed):
         if drv is not None:
             drv.close()
     return ctx.finish(
-        rule='universe of 6 tables / 6 references / 4 enums / 3 groups / 4 sticky notes (two look-alikes, one with an empty text)  / 2 projects built to clash (same full '
+        rule='universe of 6 tables / 6 references / 7 enums (twins, a namesake in another schema, a clash outside the default schema) / 3 groups / 4 sticky notes (two look-alikes, one with an empty text)  / 2 projects built to clash (same full '
              'name, structurally equal twins, alias equal to another key, identical reference inline and standalone, reference '
              'with no table, enum twins); histories: all pairs (quick) / triples (thorough) over 40 core operations, random '
              'triples, random histories of 4-60 operations incl. renames; canonical state + outcome compared after every step. '
